@@ -277,7 +277,8 @@ ForwardOK ==
   /\ (req.dp # "eh" \/ Fault = "fwdBackToEh")
 Forward ==
   /\ pc = "sent" /\ req.l4 = "udp" /\ ForwardOK
-  \* the extension headers travel along (a receive-timestamp option is added)
+  \* the extension headers travel along (a receive-timestamp option is added; the UDP
+  \* checksum is recomputed); sent to (SCION destination host, L4 destination port)
   /\ Finish("Forward", <<[to |-> "dst", d |-> IF Fault = "fwdPayload" THEN [req EXCEPT !.pl = "data'"] ELSE req]>>)
 
 Receive ==
@@ -327,7 +328,9 @@ Relay ==
   /\ pc' = "client"
   /\ UNCHANGED <<mode, cauth, req, authd, act, out, cres>>
 
-\* client_scion.go: authKey != nil (authentication enabled and key fetched), the
+\* client_scion.go (after validSrc / validDst: the response's SCION source and
+\* destination are the queried server and the client -- the relay never alters them):
+\* authKey != nil (authentication enabled and key fetched), the
 \* response has an authenticator option with the expected SPI and algorithm:
 \* verify, reject on mismatch.  Anything else is accepted unauthenticated.
 VerifyResponse ==
